@@ -4,16 +4,9 @@
 package c07
 
 import (
-	"fmt"
 	"os"
-	"strings"
 	"testing"
-	"time"
 
-	"pgregory.net/rapid"
-
-	"servitor/config"
-	"servitor/ui"
 	"servitor/zverif/vrep"
 	"servitor/zverif/vsim"
 	"servitor/zverif/vui"
@@ -27,280 +20,7 @@ func TestMain(m *testing.M) {
 	os.Exit(m.Run())
 }
 
-// Event: a single key, a resize, or a command typed out key by key.
-type Event struct {
-	Kind string `json:"kind"`           // key | resize | open | feed | number
-	B    int    `json:"b,omitempty"`    // key
-	W    int    `json:"w,omitempty"`    // resize
-	H    int    `json:"h,omitempty"`
-	Text string `json:"text,omitempty"` // open: URL template or junk; feed: name; number: digits
-	End  int    `json:"end,omitempty"`  // number: the key that ends it ('.' or Enter or other)
-}
+func check(c vui.HistCase) vrep.Result { return vui.RunHistory(sim, c, vui.Options{}) }
 
-type Case struct {
-	World   *vui.World `json:"world"`
-	Start   Event      `json:"start"` // open or feed
-	Events  []Event    `json:"events"`
-	Preload int        `json:"preload"`
-	Width   int        `json:"width"`
-	Height  int        `json:"height"`
-}
-
-const settle = 20 * time.Second
-
-func modeName(mode int) string {
-	switch mode {
-	case ui.VerifNormal:
-		return "normal"
-	case ui.VerifCommand:
-		return "command"
-	case ui.VerifSelection:
-		return "selection"
-	case ui.VerifLoading:
-		return "loading"
-	case ui.VerifOpening:
-		return "opening"
-	case ui.VerifProblem:
-		return "problem"
-	}
-	return fmt.Sprint(mode)
-}
-
-func compare(w *vui.World, m *vui.Model, snap ui.VerifSnap) error {
-	if snap.HistLen != len(m.Hist) || snap.HistIndex != m.Index {
-		return fmt.Errorf("browser history is at page %d of %d, the keymap predicts page %d of %d", snap.HistIndex, snap.HistLen, m.Index, len(m.Hist))
-	}
-	if got := modeName(snap.Mode); got != m.Mode {
-		return fmt.Errorf("input mode is %s, the keymap predicts %s", got, m.Mode)
-	}
-	if snap.Buffer != m.Buffer {
-		return fmt.Errorf("input buffer is %q, the keymap predicts %q", snap.Buffer, m.Buffer)
-	}
-	page := m.Page()
-	vp := snap.Pages[snap.HistIndex]
-	if vp.Index != page.Cursor {
-		return fmt.Errorf("cursor is at position %d, the keymap predicts %d", vp.Index, page.Cursor)
-	}
-	cur, ok := page.Current()
-	want := w.Describe(cur, ok)
-	if got := vui.Identify(vp.Current); got != want {
-		return fmt.Errorf("the highlighted item is %q, the keymap predicts %q", got, want)
-	}
-	return nil
-}
-
-func bytesOf(e Event, expand func(string) string) []byte {
-	switch e.Kind {
-	case "key":
-		return []byte{byte(e.B)}
-	case "open":
-		return []byte(":open " + expand(e.Text) + "\r")
-	case "feed":
-		return []byte(":feed " + e.Text + "\r")
-	case "number":
-		return append([]byte(e.Text), byte(e.End))
-	}
-	return nil
-}
-
-func check(c Case) vrep.Result {
-	prefix := sim.NewPrefix()
-	c.World.Install(sim, prefix)
-	expand := func(s string) string { return sim.Expand(s, -1, prefix) }
-	// case texts carry %P% for the per-case path prefix
-	c.Start.Text = strings.ReplaceAll(c.Start.Text, "%P%", prefix)
-	events := make([]Event, len(c.Events))
-	for i, e := range c.Events {
-		e.Text = strings.ReplaceAll(e.Text, "%P%", prefix)
-		events[i] = e
-	}
-	c.Events = events
-	config.Parsed.Network.Context = c.Preload
-	config.Parsed.Media.Hook = []string{"true"}
-	config.Parsed.Feeds = map[string][]string{}
-	for name, members := range c.World.Feeds {
-		urls := []string{}
-		for _, a := range members {
-			urls = append(urls, expand(c.World.ActorURL(prefix, a)))
-		}
-		config.Parsed.Feeds[name] = urls
-	}
-	classes := []string{}
-	d := vui.NewDriver(c.Width, c.Height)
-	m := vui.NewModel(c.World)
-	m.Mode = "normal"
-	// start-up, as main does
-	var startErr error
-	started := make(chan struct{})
-	go func() {
-		switch c.Start.Kind {
-		case "feed":
-			startErr = d.S.Subcommand("feed", c.Start.Text)
-		default:
-			startErr = d.S.Subcommand("open", expand(c.Start.Text))
-		}
-		close(started)
-	}()
-	select {
-	case <-started:
-	case <-time.After(settle):
-		return vrep.Fail("start-up command did not return")
-	}
-	if startErr != nil {
-		return vrep.Fail("harness: start-up command failed: %v", startErr)
-	}
-	snap, err := d.Settle(settle)
-	if err != nil {
-		return vrep.Result{Err: fmt.Errorf("after start-up: %v", err)}
-	}
-	switch c.Start.Kind {
-	case "feed":
-		m.Hist, m.Index = []*vui.MPage{c.World.FeedPage(c.Start.Text)}, 0
-	default:
-		m.Hist, m.Index = []*vui.MPage{c.World.ResolveOpen(c.Start.Text, prefix)}, 0
-	}
-	if err := compare(c.World, m, snap); err != nil {
-		return vrep.Result{Err: fmt.Errorf("after start-up (%s %s): %v", c.Start.Kind, c.Start.Text, err)}
-	}
-	pagesOpened, maxCursor, usedSelection, usedCommand, walked, soft := 0, 0, false, false, false, 0
-	trace := []string{}
-	for ei, e := range c.Events {
-		if e.Kind == "resize" {
-			d.Resize(e.W, e.H)
-			trace = append(trace, fmt.Sprintf("resize %dx%d", e.W, e.H))
-			continue
-		}
-		for _, b := range bytesOf(e, expand) {
-			trace = append(trace, fmt.Sprintf("%q", rune(b)))
-			if len(trace) > 12 {
-				trace = trace[len(trace)-12:]
-			}
-			histBefore := len(m.Hist)
-			snap, err := d.Key(b, settle)
-			if err != nil {
-				return vrep.Result{Classes: classes, Err: fmt.Errorf("event %d, key %q (last keys %v): %v", ei, b, trace, err)}
-			}
-			alt := m.Step(b, prefix, expand)
-			if err := compare(c.World, m, snap); err != nil {
-				if alt != nil {
-					if err2 := compare(c.World, alt, snap); err2 == nil {
-						m = alt
-						soft++
-						continue
-					}
-				}
-				return vrep.Result{Classes: classes, Err: fmt.Errorf("event %d, after key %q (last keys %v): %v", ei, b, trace, err)}
-			}
-			if len(m.Hist) != histBefore || m.Index == len(m.Hist)-1 && histBefore > 0 && b != 'h' && b != 'l' {
-				if len(m.Hist) > histBefore {
-					pagesOpened++
-				}
-			}
-			if cur := m.Page().Cursor; cur > maxCursor {
-				maxCursor = cur
-			} else if -cur > maxCursor {
-				maxCursor = -cur
-			}
-			switch m.Mode {
-			case "selection":
-				usedSelection = true
-			case "command":
-				usedCommand = true
-			}
-			if (b == 'h' || b == 'l') && pagesOpened > 0 {
-				walked = true
-			}
-		}
-	}
-	if pagesOpened >= 1 {
-		classes = append(classes, "opened-further-pages")
-	}
-	if maxCursor > c.Preload {
-		classes = append(classes, "cursor-beyond-first-preload-window")
-	}
-	if usedSelection {
-		classes = append(classes, "selection-mode")
-	}
-	if usedCommand {
-		classes = append(classes, "command-mode")
-	}
-	if walked {
-		classes = append(classes, "history-walk-after-open")
-	}
-	if soft > 0 {
-		classes = append(classes, "soft-step")
-	}
-	nontrivial := (pagesOpened >= 1 && maxCursor > c.Preload) || usedSelection || usedCommand
-	return vrep.Result{Classes: classes, Nontrivial: nontrivial}
-}
-
-// ------------------------------------------------------------------ generator
-
-var keymap = []byte{'j', 'j', 'j', 'j', 'k', 'k', 'g', ' ', ' ', 'c', 'r', 'a', 'h', 'h', 'l', 'o', 'p', 'b', 27, 127}
-
-func gen(t *rapid.T) Case {
-	w := vui.GenWorld(t)
-	c := Case{World: w, Preload: rapid.IntRange(1, 5).Draw(t, "preload"), Width: rapid.IntRange(20, 120).Draw(t, "width"), Height: rapid.IntRange(2, 50).Draw(t, "height")}
-	prefixDummy := "%P%"
-	_ = prefixDummy
-	opens := w.OpenCandidates("%P%")
-	pickOpen := func(label string) string {
-		if rapid.IntRange(0, 9).Draw(t, label+"junk") == 0 {
-			return rapid.SampledFrom([]string{"zzz", "https://%H0%%P%/nothing-here", "http://plain.invalid/x", "", "@nobody", "/etc/passwd", "https://%H0%%P%/p0 "}).Draw(t, label+"junktext")
-		}
-		return rapid.SampledFrom(opens).Draw(t, label)
-	}
-	feedNames := []string{}
-	for name := range w.Feeds {
-		feedNames = append(feedNames, name)
-	}
-	sortStrings(feedNames)
-	if len(feedNames) > 0 && rapid.IntRange(0, 4).Draw(t, "startfeed") == 0 {
-		c.Start = Event{Kind: "feed", Text: rapid.SampledFrom(feedNames).Draw(t, "startfeedname")}
-	} else {
-		c.Start = Event{Kind: "open", Text: rapid.SampledFrom(opens).Draw(t, "startopen")}
-	}
-	n := rapid.IntRange(1, 60).Draw(t, "nevents")
-	for i := 0; i < n; i++ {
-		switch k := rapid.IntRange(0, 19).Draw(t, "eventkind"); {
-		case k <= 10:
-			c.Events = append(c.Events, Event{Kind: "key", B: int(rapid.SampledFrom(keymap).Draw(t, "key"))})
-		case k == 11:
-			// a run of moves in one direction, to leave the first preload window
-			dir := rapid.SampledFrom([]int{'j', 'j', 'k'}).Draw(t, "rundir")
-			for r := rapid.IntRange(3, 14).Draw(t, "runlen"); r > 0; r-- {
-				c.Events = append(c.Events, Event{Kind: "key", B: dir})
-			}
-		case k == 12:
-			c.Events = append(c.Events, Event{Kind: "key", B: rapid.IntRange(0, 255).Draw(t, "anybyte")})
-		case k == 13:
-			c.Events = append(c.Events, Event{Kind: "resize", W: rapid.IntRange(1, 120).Draw(t, "rw"), H: rapid.IntRange(2, 50).Draw(t, "rh")})
-		case k == 14:
-			c.Events = append(c.Events, Event{Kind: "open", Text: pickOpen("open")})
-		case k == 15:
-			name := "nosuchfeed"
-			if len(feedNames) > 0 && rapid.Bool().Draw(t, "knownfeed") {
-				name = rapid.SampledFrom(feedNames).Draw(t, "feedname")
-			}
-			c.Events = append(c.Events, Event{Kind: "feed", Text: name})
-		default:
-			digits := rapid.SampledFrom([]string{"1", "1", "2", "2", "3", "0", "00", "01", "9", "12", "99999999999999999999", "18446744073709551617", "007"}).Draw(t, "digits")
-			end := rapid.SampledFrom([]int{'.', '.', '\r', '\r', 'j', 27, 127, ' ', 'x', ':'}).Draw(t, "numberend")
-			c.Events = append(c.Events, Event{Kind: "number", Text: digits, End: end})
-		}
-	}
-	return c
-}
-
-func sortStrings(s []string) {
-	for i := 1; i < len(s); i++ {
-		for j := i; j > 0 && s[j] < s[j-1]; j-- {
-			s[j], s[j-1] = s[j-1], s[j]
-		}
-	}
-}
-
-func TestProp(t *testing.T)   { vrep.Run(t, "Prop", true, gen, check) }
+func TestProp(t *testing.T)   { vrep.Run(t, "Prop", true, vui.GenHistCase, check) }
 func TestReplay(t *testing.T) { vrep.Replay(t, vrep.ReplayCheckName(), check) }
-
-var _ = strings.TrimSpace
